@@ -69,7 +69,19 @@ PostOK(clx, evx, gix, procx, msgsx, c, g, p) ==
          {[epoch |-> x.epoch, commit |-> x.commit] : x \in Range(p.snaps)}
          = {[epoch |-> x.epoch, commit |-> x.commit] : x \in gs.stored}, {[epoch |-> x.epoch, commit |-> x.commit] : x \in gs.stored})
 
-Post1 == PostOK(cl', ev', ginfo', proc', msgs', R.c, R.g, R.post)
+\* read-only views of the same state: pending member changes, rotation obligation, group listing, pending welcomes
+PostViews(c, g, p) ==
+    LET gs == cl'[c][g] IN
+    /\ (V("props") /\ "prem" \in DOMAIN p /\ gs.mls = "ok" /\ p.mls = "ok") =>
+          /\ Chk("prem", c, Range(p.prem) = UsersOf(PropRemoves(gs.props)), gs.props)
+          /\ Chk("padd", c, Range(p.padd) = {}, {})
+    /\ (V("rec") /\ "nsu" \in DOMAIN p) =>
+          /\ Chk("nsu", c, p.nsu = (gs.rec.st = "active" /\ gs.rec.su), gs.rec)
+          /\ Chk("listed", c, p.listed = (gs.rec.st # "none"), gs.rec.st)
+    /\ (V("welc") /\ "pwel" \in DOMAIN p) =>
+          Chk("pwel", c, Range(p.pwel) = {w \in DOMAIN welc'[c] : wl'[w].g = g /\ welc'[c][w].st = "pending"}, welc'[c])
+PostAll(c, g, p) == PostOK(cl', ev', ginfo', proc', msgs', c, g, p) /\ PostViews(c, g, p)
+Post1 == PostAll(R.c, R.g, R.post)
 
 NM(name) == [name |-> IF name # "" THEN name ELSE "unused" \o ToString(l), ts |-> R.ts, rank |-> R.rank, now |-> R.now,
              t |-> IF "t" \in DOMAIN R THEN R.t ELSE 0]
@@ -82,7 +94,7 @@ TMeta == R.op = "Reset" /\ Reset
 TCreate ==
     /\ R.op = "Create"
     /\ CreateGroup(R.c, R.g, Range(R.members), UsersOf(Range(R.admins)), R.nid, R.base)
-    /\ \A i \in DOMAIN R.posts : PostOK(cl', ev', ginfo', proc', msgs', R.posts[i].c, R.g, R.posts[i].post)
+    /\ \A i \in DOMAIN R.posts : PostAll(R.posts[i].c, R.g, R.posts[i].post)
 
 CommitArg == IF R.kind \in {"remove", "admins"} THEN UsersOf(Range(R.arg))       \* identities
              ELSE IF R.kind \in {"add", "relays"} THEN Range(R.arg)
@@ -145,7 +157,7 @@ TWelcome ==
                                        /\ IF ENABLED WelcomeCallFails(R.c, R.w) THEN WelcomeCallFails(R.c, R.w) /\ R.res = "Err"
                                           ELSE UNCHANGED vars
     /\ Post1
-    /\ ("posts" \in DOMAIN R) => \A i \in DOMAIN R.posts : PostOK(cl', ev', ginfo', proc', msgs', R.c, R.posts[i].g, R.posts[i].post)
+    /\ ("posts" \in DOMAIN R) => \A i \in DOMAIN R.posts : PostAll(R.c, R.posts[i].g, R.posts[i].post)
 
 TDropKP ==
     /\ R.op = "DropKP"
@@ -156,7 +168,7 @@ TDropKP ==
 TSnapshot ==
     /\ R.op = "Snapshot"
     /\ UNCHANGED vars
-    /\ \A i \in DOMAIN R.posts : PostOK(cl', ev', ginfo', proc', msgs', R.posts[i].c, R.posts[i].g, R.posts[i].post)
+    /\ \A i \in DOMAIN R.posts : PostAll(R.posts[i].c, R.posts[i].g, R.posts[i].post)
 
 TForge ==
     /\ R.op = "Forge"
@@ -186,12 +198,12 @@ TJunk ==
 TRestart ==
     /\ R.op = "Restart"
     /\ IF "ttl" \in DOMAIN R THEN RestartT(R.c, R.ttl, R.now) ELSE Restart(R.c)
-    /\ \A i \in DOMAIN R.posts : PostOK(cl', ev', ginfo', proc', msgs', R.c, R.posts[i].g, R.posts[i].post)
+    /\ \A i \in DOMAIN R.posts : PostAll(R.c, R.posts[i].g, R.posts[i].post)
 
 TQuiesce ==
     /\ R.op = "Quiesce"
     /\ Quiesce
-    /\ \A i \in DOMAIN R.posts : PostOK(cl', ev', ginfo', proc', msgs', R.posts[i].c, R.posts[i].g, R.posts[i].post)
+    /\ \A i \in DOMAIN R.posts : PostAll(R.posts[i].c, R.posts[i].g, R.posts[i].post)
 
 TraceInit == Init /\ l = 2
 
